@@ -32,6 +32,7 @@ def run(ctx):
     ctx.each(r06k, ctx, repo)
     ctx.each(r06l, ctx, repo)
     ctx.each(r06m, ctx, repo)
+    ctx.each(r06o, ctx, repo)
     ctx.each(r06n, ctx, repo)
     from . import c03 as _c03
 
@@ -732,6 +733,13 @@ def r06m(ctx, repo):
             top = top._parent
         ok = ok and isinstance(top, ast.If) and top is sd.node.body[-1]
     ctx.check(ok, "R06m", sd, pre[0] if pre else sd.node, "not dynamic => precomputed, decided last and unconditionally", "Parameter.set_dynamic does not end with `if not %s._is_dynamic: %s._precompute = True` at the top level of the function: a function parameter that is neither dynamic nor precomputed (e.g. a function of `t` only when the flag is set under `if self.deps`) is only evaluated after the run, while junctions and links read it during the run (NaN, or the stale databook value)" % (me, me), stmt_text="precompute-decision")
+    # every Parameter dependency is descended into, whatever else is known about it (the descent is what flags intermediate function parameters)
+    rec = [c for c in own_nodes(sd.node) if isinstance(c, ast.Call) and isinstance(c.func, ast.Attribute) and c.func.attr == "set_dynamic" and any("Parameter" in ast.unparse(t) and p for t, p in branch_guards(enclosing_stmt(c), stop=sd.node))]
+    okd = len(rec) == 1
+    if okd:
+        g = branch_guards(enclosing_stmt(rec[0]), stop=sd.node)
+        okd = not any(("progset" in ast.unparse(t)) or ("_is_dynamic" in ast.unparse(t)) for t, p in g if "isinstance" not in ast.unparse(t) and ast.unparse(t) != "%s.deps" % me)
+    ctx.check(okd, "R06m", sd, enclosing_stmt(rec[0]) if rec else sd.node, "every Parameter dependency is descended into", "the recursive `dep.set_dynamic(...)` on a Parameter dependency is skipped under a further condition (%s): an intermediate function parameter that is only reached through this call is then neither dynamic nor precomputed and stays NaN during the run" % ([ast.unparse(t)[:60] for t, p in branch_guards(enclosing_stmt(rec[0]), stop=sd.node)] if rec else "call not found"), stmt_text="descent-unconditional")
     rets = [r for r in own_nodes(sd.node) if isinstance(r, ast.Return)]
     okr = len(rets) == 1 and B.equivalent(B.cond(branch_guards(rets[0], stop=sd.node)), B.parse_cond("%s.fcn_str is None or %s._is_dynamic or %s._precompute" % (me, me, me)))
     ctx.check(okr, "R06m", sd, rets[0] if rets else sd.node, "early return only without a function or when already flagged", "Parameter.set_dynamic returns early under another condition than `fcn_str is None or _is_dynamic or _precompute`: some function parameters are never flagged", stmt_text="early-return")
@@ -783,3 +791,27 @@ def r06n(ctx, repo):
         except SyntaxError:
             okv = False
     ctx.check(okv, "R06n", fi, masks[0] if masks else fi.node, "vector evaluation keeps exactly the years outside [start, stop]", "the vector branch of Parameter.update does not keep exactly the indices with t < skip_function[0] or t > skip_function[1]", stmt_text="skip-vector")
+
+
+def r06o(ctx, repo):
+    from ..core import boolx as B
+    from ..core.cfg import branch_guards
+
+    ctx.rule("R06o", "which function parameters are evaluated in time for the run: Population.build calls set_dynamic(progset=progset) exactly for the parameters that have a function and drive a transition (links), are derivatives, are *timed* (their value sizes the keyring before the run), or are overwritten by a program in this population; every one of the four reasons is needed - a timed duration given by a function would otherwise be sized from the databook value, a program-overwritten function parameter evaluated after the run")
+    fi = repo.func("model", "Population.build")
+    me = fi.params[0]
+    calls = [c for c in own_nodes(fi.node) if isinstance(c, ast.Call) and isinstance(c.func, ast.Attribute) and c.func.attr == "set_dynamic" and isinstance(c.func.value, ast.Name)]
+    cand = []
+    for c in calls:
+        lp = enclosing_stmt(c)
+        while lp is not None and not isinstance(lp, ast.For):
+            lp = getattr(lp, "_parent", None)
+        if lp is not None and ast.unparse(lp.iter) == "%s.pars" % me and isinstance(lp.target, ast.Name) and lp.target.id == c.func.value.id:
+            cand.append((c, lp))
+    ctx.require(len(cand) == 1, "R06o: the loop over self.pars that calls par.set_dynamic was not found exactly once in Population.build (%d)" % len(cand))
+    c, lp = cand[0]
+    p = lp.target.id
+    g = B.cond(branch_guards(enclosing_stmt(c), stop=lp))
+    want = B.parse_cond("%s.fcn_str and (%s.links or %s.derivative or framework.pars.at[%s.name, 'timed'] == 'y' or (not (progset is None) and (%s.name, %s.name) in progset.covouts))" % (p, p, p, p, p, me))
+    ok = B.equivalent(g, want)
+    ctx.check(ok, "R06o", fi, enclosing_stmt(c), "set_dynamic for function parameters with links / derivative / timed / program overwrite", "Population.build calls `%s.set_dynamic` under `%s`, not exactly for function parameters that have links, are derivatives, are timed, or are overwritten by a program in this population%s" % (p, " and ".join(("" if pol else "not ") + ast.unparse(t)[:120] for t, pol in branch_guards(enclosing_stmt(c), stop=lp)), ("; differing case: %s" % B.counterexample(g, want)) if not ok else ""), stmt_text="set_dynamic-decision")
